@@ -5,7 +5,9 @@
 use proc_macro2::TokenStream;
 use quote::quote;
 
-use super::super::super::conversions::{BinOpEmitKind, ConversionContext, determine_binop_plan, determine_conversion};
+use super::super::super::conversions::{
+    BinOpEmitKind, ConversionContext, NumericConversion, determine_binop_plan, determine_conversion,
+};
 use super::super::super::expr::{BinOp, IrCallArg, IrExprKind, TypedExpr, VarAccess, VarRefKind};
 use super::super::super::types::{IrType, Mutability};
 use super::super::{EmitError, IrEmitter};
@@ -160,6 +162,15 @@ impl<'a> IrEmitter<'a> {
         match plan.emit {
             BinOpEmitKind::StdlibCall { path } => Ok(quote! { #path(#l, #r) }),
             BinOpEmitKind::Pow { result_is_int } => {
+                // A cast or a bare integer literal cannot be used as a method receiver as written:
+                // `(x) as f64.powf(..)` does not parse and `2.pow(..)` has an ambiguous numeric type.
+                let l = if matches!(plan.lhs_conv, NumericConversion::ToFloat) {
+                    quote! { (#l) }
+                } else if matches!(left.kind, IrExprKind::Int(_)) {
+                    quote! { (#l as i64) }
+                } else {
+                    l
+                };
                 if result_is_int {
                     Ok(quote! { #l.pow(#r as u32) })
                 } else {
